@@ -60,7 +60,9 @@ ASSUME = [
     "because ebpf.MACToUint64 maps every such address to the cache key 0",
     "dhcpterm: circuit-ids are private to a MAC (a shared circuit-id aliases two leases through leasesByCircuitID: finding D9 "
     "of C02), so the circuit-id index is not modelled; one pool of 8 addresses; RADIUS authentication off; the QoS policy "
-    "exists and the NAT pool never runs out; the accounting server answers every request (an unanswered Stop is C08's subject)",
+    "exists and the NAT port pool never runs out; a QoS / NAT install that fails because a kernel map is full IS covered (op "
+    "`fault qe|qi|nat on|off`: real maps kept full by filler keys; model State.qosHalf - egress bucket written, ingress Put "
+    "failed, untracked; a failed subscriber_nat Put leaves nothing): every termination removes both QoS entries unconditionally; the accounting server answers every request (an unanswered Stop is C08's subject)",
     "dhcpterm: Accounting-Start and Accounting-Stop are sent from goroutines of their own; the harness waits for them after "
     "every operation, so their order on the wire (a Stop overtaking its Start) is not explored",
     "dhcpterm: two terminations at once are realised on the real code by stalling the first one's goroutine at the NAT "
